@@ -13,6 +13,32 @@ class AnalysisError(Exception):
     """An anchor vanished / a construct has a shape none of the enumerated idioms covers."""
 
 
+_POLY = {}
+
+
+def _polymorphic_methods(pkgdir):
+    """names of methods that MORE THAN ONE class of the package defines: a call `self.m(..)` of such a method may reach
+    another class's definition (an override), so replacing the call by one body is not behaviour-preserving"""
+    if pkgdir not in _POLY:
+        count = {}
+        try:
+            files = sorted(f for f in os.listdir(pkgdir) if f.endswith(".py"))
+        except OSError:
+            files = []
+        for f in files:
+            try:
+                t = ast.parse(open(os.path.join(pkgdir, f), encoding="utf8").read())
+            except (OSError, SyntaxError):
+                continue
+            for c in ast.walk(t):
+                if isinstance(c, ast.ClassDef):
+                    for st in c.body:
+                        if isinstance(st, (ast.FunctionDef, ast.AsyncFunctionDef)):
+                            count.setdefault(st.name, set()).add((f, c.name))
+        _POLY[pkgdir] = {n for n, cs in count.items() if len(cs) > 1}
+    return _POLY[pkgdir]
+
+
 class ModInfo:
     def __init__(self, name, path, relpath, source):
         self.name = name
@@ -31,7 +57,7 @@ class ModInfo:
         if self._tree is None:
             from .normalize import normalize_tree
 
-            t, log = normalize_tree(self.raw_tree, self.name)
+            t, log = normalize_tree(self.raw_tree, self.name, polymorphic=_polymorphic_methods(os.path.dirname(self.path)))
             if log:
                 _annotate(t, self.name)
                 self._tree, self.normalised = t, log
